@@ -199,6 +199,10 @@ class remove_deletable_files:
     may_raise = {OSError: None}
     modifies = ["workflow.to_be_deleted"]
     loops = {0: LoopSpec()}
+    # the queue is keyed by path and only valid for the graph it was filled from: nothing is carried over to a later
+    # clean-up (an entry left behind would let a later pass remove whatever then sits at that path)
+    ghost = dict(k0=ty.Str)
+    ensures = lambda workflow, ghost: wrap_bool(tm.Not(workflow.to_be_deleted.contains_t(ghost.k0)))
 
 
 
